@@ -20,6 +20,7 @@ import (
 	"os"
 	"path/filepath"
 	"reflect"
+	"runtime"
 	"runtime/debug"
 	"sort"
 	"strconv"
@@ -104,6 +105,7 @@ type vpWorld struct {
 	buildDone   bool
 	provClosed  bool
 	hung        bool
+	baseGoroutines int
 	fails       []string
 }
 
@@ -701,6 +703,7 @@ func (r *vpRun) newWorld(rng *rand.Rand) *vpWorld {
 	r.w = w
 	r.scen++
 	r.cur = nil
+	w.baseGoroutines = runtime.NumGoroutine()
 	w.coll = NewCollection().(*collection)
 	r.emit("p new", "ok")
 	return w
@@ -1323,6 +1326,19 @@ func (w *vpWorld) generate(o vpGenOpts) {
 				if len(reg.outs) == 0 {
 					continue
 				}
+			} else {
+				switch rng.Intn(4) {
+				case 0: // Name applies to the first return value only, the others stay unkeyed
+					usedPlain[reg.outs[0].typ] = false
+					keyCount[reg.outs[0].typ]++
+					reg.outs[0].name = fmt.Sprintf("k%d_%d", reg.outs[0].slot, keyCount[reg.outs[0].typ])
+				case 1: // Group applies to every return value
+					g := fmt.Sprintf("g%d", rng.Intn(3))
+					for k := range reg.outs {
+						usedPlain[reg.outs[k].typ] = false
+						reg.outs[k].group = g
+					}
+				}
 			}
 		case "ro":
 			k := 2 + rng.Intn(2)
@@ -1423,7 +1439,7 @@ func (w *vpWorld) generate(o vpGenOpts) {
 		default:
 			reg.fn = w.makeConstructor(reg)
 		}
-		if len(reg.outs) > 0 && reg.form != "multi" && reg.form != "ro" {
+		if len(reg.outs) > 0 && reg.form != "ro" {
 			if reg.outs[0].name != "" {
 				reg.opts = append(reg.opts, Name(reg.outs[0].name))
 			}
@@ -1459,6 +1475,16 @@ func (w *vpWorld) generate(o vpGenOpts) {
 		for k := rng.Intn(4); k > 0; k-- {
 			reg := w.regs[rng.Intn(len(w.regs))]
 			w.cbeh[[2]int{reg.idx + 1, 1 + rng.Intn(3)}] = true
+		}
+		// an initializer that fails when a later scope is created (its first run is the root scope at Build)
+		for _, reg := range w.regs {
+			if reg.form == "void" && reg.life == Scoped && rng.Intn(2) == 0 {
+				how := "panic"
+				if reg.withErr && rng.Intn(2) == 0 {
+					how = "err"
+				}
+				w.beh[[2]int{reg.idx + 1, 2 + rng.Intn(2)}] = how
+			}
 		}
 	}
 }
@@ -1597,9 +1623,84 @@ func (r *vpRun) scenario(rng *rand.Rand, o vpGenOpts) {
 	if !w.hung && rng.Intn(3) == 0 {
 		r.closeProvider(w, parentOf)
 	}
+	// C14: every scope is closed now, so no goroutine started on behalf of a scope may remain -
+	// although the contexts the caller passed in have NOT been cancelled yet
+	if !w.hung {
+		deadline := time.Now().Add(5 * time.Second)
+		for runtime.NumGoroutine() > w.baseGoroutines && time.Now().Before(deadline) {
+			time.Sleep(2 * time.Millisecond)
+		}
+		if n := runtime.NumGoroutine(); n > w.baseGoroutines {
+			w.fail("C14", "%d goroutine(s) started for scopes are still alive after every scope and the provider were closed (contexts passed by the caller not cancelled)", n-w.baseGoroutines)
+			r.emit("p state P", "leak") // flushes the monitor failure with the scenario
+		}
+	}
 	for _, cancel := range w.cancels {
 		cancel()
 	}
+}
+
+// reserved types can never be registered, whatever the form (C18 last sentence)
+type vpCtxImpl struct{ context.Context }
+type vpScopeOut struct {
+	Out
+	S  Scope
+	P0 *PS0
+}
+
+func (r *vpRun) reservedTypes(rng *rand.Rand) {
+	w := r.newWorld(rng)
+	attempts := []struct {
+		name string
+		add  func(c *collection) error
+	}{
+		{"context.Context as a second return value", func(c *collection) error {
+			return c.AddSingleton(func() (*PS0, context.Context) { return &PS0{}, context.Background() })
+		}},
+		{"As[context.Context]", func(c *collection) error {
+			return c.AddScoped(func() *vpCtxImpl { return &vpCtxImpl{context.Background()} }, As[context.Context]())
+		}},
+		{"Scope as a result-object field", func(c *collection) error {
+			return c.AddTransient(func() vpScopeOut { return vpScopeOut{} })
+		}},
+		{"Provider as the service type", func(c *collection) error {
+			return c.AddSingleton(func() Provider { return nil })
+		}},
+		{"Scope instance value", func(c *collection) error {
+			var s Scope
+			return c.AddSingleton(&s)
+		}},
+		{"Provider as a named second return", func(c *collection) error {
+			return c.AddSingleton(func() (*PS1, Provider) { return &PS1{}, nil }, Name("x"))
+		}},
+	}
+	for _, a := range attempts[:4+rng.Intn(3)] {
+		before := len(w.coll.allDescriptors)
+		var err error
+		guard(w, "Add*", func() { err = a.add(w.coll) })
+		for _, d := range w.coll.allDescriptors {
+			if d.Type == contextType || d.Type == scopeType || d.Type == providerType {
+				w.fail("C18", "reserved type %v was registered (%s)", d.Type, a.name)
+			}
+		}
+		_ = before
+		_ = err
+		r.stats["reserved_attempts"]++
+	}
+	// whatever was accepted, the built-ins still win
+	prov, err := w.coll.Build()
+	if err == nil {
+		if sc, e := prov.CreateScope(nil); e == nil {
+			if v, e := sc.Get(contextType); e != nil || v != sc.Context() {
+				w.fail("C18", "scope.Get(context.Context) is not the scope's context after reserved-type registration attempts")
+			}
+			if v, e := sc.Get(scopeType); e != nil || v != sc {
+				w.fail("C18", "scope.Get(Scope) is not the scope itself after reserved-type registration attempts")
+			}
+		}
+		prov.Close()
+	}
+	r.emit("p verdict", "ok")
 }
 
 func vpEnvInt(name string, def int) int {
@@ -1634,6 +1735,10 @@ func TestVerifCore(t *testing.T) {
 	for it := 0; it < n; it++ {
 		rng := rand.New(rand.NewSource(seed*1000003 + int64(it)))
 		o := vpGenOpts{n: 2 + rng.Intn(7), forms: it%2 == 1, faults: it%3 == 2, defects: it%5 == 4}
+		if it%50 == 7 {
+			r.reservedTypes(rng)
+			continue
+		}
 		r.scenario(rng, o)
 		if r.w != nil && r.w.hung {
 			r.stats["hangs"]++
